@@ -296,6 +296,7 @@ theorem cert_roundtrip' (c : CryptoOps) (hc : CryptoLaws c) (ct : Cert) (b rest 
   simp only
   rw [if_neg (by rw [hso]; omega), dso, signature_roundtrip ct.signature g rest hwf.sigNe hg]
   simp only
+  rw [if_neg (by simp)]
   unfold expectedCert certPermDataLen certUuidLen
   rw [d8, d24, take_app _ _ 12 hPl, take_app _ _ 16 hUl, hbl, hPD, hUU]
 
